@@ -42,6 +42,9 @@ class C07(e1.E1Check):
         keys = args[3] if len(args) > 3 else None
         return refops.combinations(T, tvs, args[0], bool(args[1]), args[2], keys)
 
+    def l3_signature(self, T, tvs, label):
+        return {"regular": refops._has_kind(T, ("reg",))}
+
     def signature(self, T, tvs, d, names, opname, args, failure):
         lo, hi = refops.array_depth(T)
         return {"n": args[0], "replacement": bool(args[1]), "axis0": (args[2] if args[2] >= 0 else args[2] + lo) == 0,
